@@ -65,6 +65,13 @@ def dyn_variants(elem, m, n, ctx, rng):
     # (2) rule parameter
     t2 = f'start = {body.replace("/HOLE/", f"R(`{m}`, `{nb}`)")}\nR(m, n) = {rep}\n' + helpers
     out.append((t2, ''))
+    # (4) bounds written as Python expressions with an operator that binds looser than a comparison
+    if n is not None:
+        t4 = f'start = {body.replace("/HOLE/", bounds(f"`0 or {m}`", f"`0 or {n}`"))}\n' + helpers
+        out.append((t4, ''))
+        # (5) numerals with leading zeros
+        t5 = f'start = {body.replace("/HOLE/", bounds(f"0{m}", f"00{n}"))}\n' + helpers
+        out.append((t5, ''))
     # (3) bound parsed from the input (a digit in front)
     if n is not None and m == n:
         t3 = (f'start = let n = /\\d/ |> `int` in {body.replace("/HOLE/", bounds("n", "n"))}\n' + helpers)
@@ -110,6 +117,20 @@ def build_jobs(tier, seed):
                 for text, prefix in dyn_variants(elem, m, n, ctx, rng):
                     if rng.random() < (0.5 if tier == 'quick' else 1.0):
                         add(e, 'dyn-' + name, dyn={'text': text, 'prefix': prefix})
+    # bounds that turn out to be inconsistent only at parse time (lower above upper): the repetition cannot match
+    for elem in ELEMS:
+        for (m, n) in [(1, 0), (2, 1), (3, 1), (2, 0), (3, 2)]:
+            for name, ctx in CONTEXTS:
+                if rng.random() > frac:
+                    continue
+                hole = ('rx', 'HOLE')
+                body = G.render(ctx(hole))
+                helpers = ''.join(f'{k} = {G.render(v)}\n' for k, v in G.HELPERS.items())
+                rep = f'({G.render(elem)}){{m,n}}'
+                text = f'start = let m = `{m}` in let n = `{n}` in {body.replace("/HOLE/", rep)}\n' + helpers
+                add(ctx(('fail',)), 'dyn-inconsistent-' + name, dyn={'text': text, 'prefix': ''})
+                text2 = f'start = let m = `{m}` in {body.replace("/HOLE/", f"({G.render(elem)}){{m,{n}}}")}\n' + helpers
+                add(ctx(('fail',)), 'dyn-inconsistent-' + name, dyn={'text': text2, 'prefix': ''})
     # separated lists: element x separator x all accepted option sets x context
     for elem in ELEMS:
         for sep in SEPS:
